@@ -15,6 +15,7 @@
 (*        "mismatch"   a collection whose manifest hashes to something else*)
 (*        "s404" "s5xx"  an error with that class of status                *)
 (*        "cancelled"  nothing, until the request's context was cancelled  *)
+(*   ClientCancel      the client cancels its request                      *)
 (*   GetDone(ok, pdhOK, rel)   what the client gets: ok = a collection;    *)
 (*        pdhOK = the manifest handed over hashes (independent computation)*)
 (*        to the requested hash+size;  rel[b+1] = the manifest handed over *)
@@ -31,7 +32,8 @@
 (*  (b) "and never wins over an honest remote answering the same request"  *)
 (*        GetDone: the local cluster said 404 and some remote answered     *)
 (*        "match" before the client was answered => ok (whatever the other *)
-(*        remotes answered, in whatever order)                             *)
+(*        remotes answered, in whatever order) - unless the client itself  *)
+(*        has cancelled the request                                        *)
 (*  (c) "the manifest relayed from a remote cluster differs from what that *)
 (*      cluster sent only in that each permission hint ... has become +R"  *)
 (*        GetDone: ok => rel[b+1] for a backend b that answered with a     *)
@@ -50,15 +52,17 @@ EXTENDS Integers, Sequences, FiniteSets
 
 VARIABLES cfg,    \* [n : 0..4, mode : {"pdh","uuid"}]
           ans,    \* backend -> "none" | kind of the answer it gave before GetDone
+          gaveup, \* the client has cancelled its request
           done    \* "no" | "ok" | "err"
 
-cvars == <<cfg, ans, done>>
+cvars == <<cfg, ans, gaveup, done>>
 
 Backends == 0 .. 4
 Kinds == {"match", "mismatch", "s404", "s5xx", "cancelled"}
 
 CInit(c) == /\ cfg = c
             /\ ans = [b \in Backends |-> "none"]
+            /\ gaveup = FALSE
             /\ done = "no"
 
 Ask(b) == /\ b \in 0 .. cfg.n
@@ -67,7 +71,11 @@ Ask(b) == /\ b \in 0 .. cfg.n
 Answer(b, k) ==
     /\ b \in 0 .. cfg.n /\ k \in Kinds
     /\ ans' = IF done = "no" THEN [ans EXCEPT ![b] = k] ELSE ans
-    /\ UNCHANGED <<cfg, done>>
+    /\ UNCHANGED <<cfg, gaveup, done>>
+
+\* The client cancels its request.  From then on nothing obliges the request to succeed (clause (b) is
+\* void: an implementation may return the cancellation at once); what it may hand over stays restricted.
+ClientCancel == gaveup' = TRUE /\ UNCHANGED <<cfg, ans, done>>
 
 Sent(b) == IF cfg.mode = "pdh" THEN ans[b] = "match" ELSE ans[b] \in {"match", "mismatch"}
 
@@ -75,10 +83,10 @@ GetDone(ok, pdhOK, rel) ==
     /\ done = "no"
     /\ ok => ( \/ (\E b \in 1 .. cfg.n :                                   \* (a), (c): from a remote
                      Sent(b) /\ rel[b + 1] /\ ((cfg.mode = "pdh") => pdhOK))
-               \/ (ans[0] \in {"match", "mismatch"} /\ rel[1]) )            \* the local cluster's own copy
-    /\ (cfg.mode = "pdh" /\ ans[0] = "s404" /\ \E b \in 1 .. cfg.n : ans[b] = "match") => ok   \* (b)
+               \/ ans[0] \in {"match", "mismatch"} )   \* the local cluster returned a copy: statement silent
+    /\ (~gaveup /\ cfg.mode = "pdh" /\ ans[0] = "s404" /\ \E b \in 1 .. cfg.n : ans[b] = "match") => ok   \* (b)
     /\ done' = IF ok THEN "ok" ELSE "err"
-    /\ UNCHANGED <<cfg, ans>>
+    /\ UNCHANGED <<cfg, ans, gaveup>>
 
 TypeOK == done \in {"no", "ok", "err"} /\ \A b \in Backends : ans[b] \in Kinds \cup {"none"}
 =============================================================================
